@@ -233,6 +233,16 @@ type pqSys struct {
 	keys  int
 	prios int
 	inits [][]kp
+	// coarse: priorities 2c-1 and 2c rank the same (a non-injective order): an Update to a different
+	// priority of the same rank still has to be stored
+	coarse bool
+}
+
+func (s pqSys) rank(p int) int {
+	if s.coarse {
+		return (p + 1) / 2
+	}
+	return p
 }
 
 func (s pqSys) opStr(o seqx.Op) string {
@@ -262,17 +272,18 @@ func (s pqSys) Run(path []seqx.Op) (res seqx.Result) {
 	model := map[int]int{}
 	mk := func(init []kp) {
 		if s.cmp {
-			q = xheap.NewPriorityQueueCmp[int, int](func(a, b int) int { return a - b }, init)
+			q = xheap.NewPriorityQueueCmp[int, int](func(a, b int) int { return 1000 * (s.rank(a) - s.rank(b)) }, init)
 		} else {
-			q = xheap.NewPriorityQueue[int, int](func(a, b int) bool { return a < b }, init)
+			q = xheap.NewPriorityQueue[int, int](func(a, b int) bool { return s.rank(a) < s.rank(b) }, init)
 		}
 	}
 	built := false
+	// the smallest rank held (priorities of one rank are interchangeable for Peek/Pop)
 	minP := func() int {
 		m := 1 << 30
 		for _, p := range model {
-			if p < m {
-				m = p
+			if s.rank(p) < m {
+				m = s.rank(p)
 			}
 		}
 		return m
@@ -338,8 +349,8 @@ func (s pqSys) Run(path []seqx.Op) (res seqx.Result) {
 				viol = &seqx.Viol{Sig: "pq/pop-not-held", Detail: fmt.Sprintf("Pop returned key %d which is not in the queue", got)}
 				break
 			}
-			if pr != minP() {
-				viol = &seqx.Viol{Sig: "pq/pop-not-minimal", Detail: fmt.Sprintf("Pop returned key %d with priority %d but another key has priority %d", got, pr, minP())}
+			if s.rank(pr) != minP() {
+				viol = &seqx.Viol{Sig: "pq/pop-not-minimal", Detail: fmt.Sprintf("Pop returned key %d with priority %d (rank %d) but another key has rank %d", got, pr, s.rank(pr), minP())}
 			}
 			delete(model, got)
 		}
@@ -395,8 +406,8 @@ func (s pqSys) Run(path []seqx.Op) (res seqx.Result) {
 			fail("pq/peek-not-held", "Peek returned key %d which is not in the queue", got)
 			return
 		}
-		if pr != minP() {
-			fail("pq/peek-not-minimal", "Peek returned key %d with priority %d but another key has priority %d", got, pr, minP())
+		if s.rank(pr) != minP() {
+			fail("pq/peek-not-minimal", "Peek returned key %d with priority %d (rank %d) but another key has rank %d", got, pr, s.rank(pr), minP())
 			return
 		}
 	}
@@ -742,6 +753,14 @@ func main() {
 			deepHeaps(run)
 			run.Finish()
 		}
+		if rp.Kind == "pq-coarse" {
+			cs := pqSys{cmp: false, keys: 5, prios: 4, inits: [][]kp{nil, {{K: 0, P: 1}, {K: 1, P: 2}, {K: 2, P: 3}}}, coarse: true}
+			fmt.Println(cs.pathStr(rp.Ops))
+			if r := cs.Run(rp.Ops); r.Viol != nil {
+				run.Violate(vx.Violation{Signature: r.Viol.Sig, Detail: r.Viol.Detail, Replay: rp})
+			}
+			run.Finish()
+		}
 		if rp.Kind == "heap" {
 			s := heapSys{cmp: rp.Cmp, maxSize: heapMax, prios: heapPrios, inits: allLists(heapPrios, 8)}
 			fmt.Println(s.pathStr(rp.Ops))
@@ -803,6 +822,24 @@ func main() {
 			v := st.Viols[0]
 			run.Violate(vx.Violation{Signature: v.Viol.Sig, Detail: fmt.Sprintf("%s; history %v", v.Viol.Detail, ps.pathStr(v.Path)),
 				Replay: map[string]any{"kind": "pq", "cmp": cmp, "ops": v.Path, "readable": ps.pathStr(v.Path)}})
+		}
+	}
+	{
+		// a non-injective priority order: 4 priorities in 2 ranks
+		cs := pqSys{cmp: false, keys: 4, prios: 4, inits: [][]kp{nil, {{K: 0, P: 1}, {K: 1, P: 2}, {K: 2, P: 3}}}, coarse: true}
+		if !run.Quick() {
+			cs.keys = 5
+		}
+		st := seqx.ExploreFrom(cs, [][]seqx.Op{{{K: opInit, A: 0}}, {{K: opInit, A: 1}}}, seqx.Config{Deadline: run.Deadline})
+		run.AddCounts(st.States, st.Transitions, st.Transitions)
+		if st.Capped != "" {
+			run.Capped("queue (coarse order): " + st.Capped)
+		}
+		configs = append(configs, map[string]any{"container": "PriorityQueue", "order": "coarse: priorities 1,2 tie and 3,4 tie", "keys": cs.keys, "priorities": 4, "states": st.States, "transitions": st.Transitions})
+		if len(st.Viols) > 0 {
+			v := st.Viols[0]
+			run.Violate(vx.Violation{Signature: v.Viol.Sig, Detail: fmt.Sprintf("[coarse priority order] %s; history %v", v.Viol.Detail, cs.pathStr(v.Path)),
+				Replay: map[string]any{"kind": "pq-coarse", "ops": v.Path, "readable": cs.pathStr(v.Path)}})
 		}
 	}
 	lo, hi := 8, 13
